@@ -67,6 +67,10 @@ func (d *deduplicationStrategy) eval(
 
 	del := make([][]byte, 0)
 	versionRemoved := false
+	// versions of one entity written by the same batch share their txn time and with it their reference
+	// keys (and the tombstones of references a later version of the batch dropped): such keys do not
+	// belong to this version alone and have to stay
+	ownsRefKeys := !sharesTxnTime(jsonKey, txn)
 	var rewriteKeys [][]byte
 	var rewriteValues [][]byte
 	// first, check if the whole entity is equal to the previous entity
@@ -92,13 +96,15 @@ func (d *deduplicationStrategy) eval(
 		//
 		// 4.delete outgoing references
 		// 5.delete incoming references
-		refs, err := findRefs(e, jsonKey, txn, d.lookup)
-		if err != nil {
-			return nil, err
+		if ownsRefKeys {
+			refs, err := findRefs(e, jsonKey, txn, d.lookup)
+			if err != nil {
+				return nil, err
+			}
+			del = append(del, refs...)
+			d.counts["refs"] += len(refs)
 		}
-		del = append(del, refs...)
-		d.counts["refs"] += len(refs)
-	} else if e.IsDeleted == d.prev.IsDeleted {
+	} else if e.IsDeleted == d.prev.IsDeleted && ownsRefKeys {
 		// if the entity is not equal to the previous entity, we can still check for just reference duplicates
 		for k, stringOrArrayValue := range e.References {
 			if reflect.DeepEqual(d.prev.References[k], stringOrArrayValue) {
@@ -153,6 +159,24 @@ func (d *deduplicationStrategy) eval(
 		return &compactionInstruction{DeleteKeys: del}, nil
 	}
 	return nil, nil
+}
+
+// sharesTxnTime tells whether the dataset holds another version of the same entity with the same txn time
+// (json key: index uint16, entity id uint64, dataset id uint32, txn time uint64, sequence in batch uint16)
+func sharesTxnTime(jsonKey []byte, txn *badger.Txn) bool {
+	opts := badger.DefaultIteratorOptions
+	opts.PrefetchValues = false
+	opts.Prefix = jsonKey[:22]
+	it := txn.NewIterator(opts)
+	defer it.Close()
+	versions := 0
+	for it.Seek(opts.Prefix); it.ValidForPrefix(opts.Prefix); it.Next() {
+		versions++
+		if versions > 1 {
+			return true
+		}
+	}
+	return false
 }
 
 // findChangeLogKeys finds the change log key for a given json key. format:
